@@ -1,0 +1,19 @@
+//go:build verif
+
+package boltz
+
+import "sync/atomic"
+
+var verifHook atomic.Value // func(string)
+
+// SetVerifHook installs the function called at every verifPoint (verif build tag only). The function may block:
+// the verification harness uses that to hold the library at a linearization point while it drives other goroutines.
+func SetVerifHook(f func(point string)) {
+	verifHook.Store(f)
+}
+
+func verifPoint(point string) {
+	if f, ok := verifHook.Load().(func(string)); ok && f != nil {
+		f(point)
+	}
+}
